@@ -406,17 +406,24 @@ impl ExpandedField<'_> {
         };
 
         let is_id = self.field_type == "ID";
-        let is_required = self
-            .field_type_qualifiers
-            .contains(&GraphqlTypeQualifier::Required);
-        let id_deserialize_with = if is_id && is_required {
-            Some(quote!(#[serde(deserialize_with = "graphql_client::serde_with::deserialize_id")]))
-        } else if is_id {
-            Some(
+        let id_deserialize_with = match (is_id, self.field_type_qualifiers) {
+            (false, _) => None,
+            // `ID!`
+            (true, [GraphqlTypeQualifier::Required]) => Some(
+                quote!(#[serde(deserialize_with = "graphql_client::serde_with::deserialize_id")]),
+            ),
+            // `ID`
+            (true, []) => Some(
                 quote!(#[serde(default, deserialize_with = "graphql_client::serde_with::deserialize_option_id")]),
-            )
-        } else {
-            None
+            ),
+            // A non-null list of IDs, at any depth.
+            (true, [GraphqlTypeQualifier::Required, ..]) => Some(
+                quote!(#[serde(deserialize_with = "graphql_client::serde_with::deserialize_nested_id")]),
+            ),
+            // A nullable list of IDs, at any depth.
+            (true, _) => Some(
+                quote!(#[serde(default, deserialize_with = "graphql_client::serde_with::deserialize_nested_id")]),
+            ),
         };
 
         let optional_skip_serializing_none = if *options.skip_serializing_none()
